@@ -529,6 +529,24 @@ def internal_unreachable(ctx):
         gs = guard_strings(b, bi, ctx.senv(b))
         key = "%s|%s" % (b.path, sorted(g for g in gs if "pattern" in g or "idx" in g or "is_empty" in g or "len(" in g)[:2])
         ch = entry_checks.get(b.path)
+        single = ch is not None and (any(g == "!eq('%s', a1.pattern[a1.idx])" % ch for g in gs) or any("lt(a1.idx, a1.len)" in g for g in gs))
+        if ch is not None and not single:
+            from ..dom import or_guarded as _org
+            # the two belief checks merged into one condition: `idx >= len || pattern[idx] != 'X'`
+            if _org(b, bi, lambda s, o: (strip_ver(s) == "lt(a1.idx, a1.len)" and o is False) or (strip_ver(s) == "eq('%s', a1.pattern[a1.idx])" % ch and o is False), ctx.senv(b)):
+                bad1, bad2 = [], []
+                for caller, cb in ctx.cg.sites.get(b.path, []):
+                    if caller.parent is not None:
+                        continue
+                    cg = {strip_ver(x) for x in guard_strings(caller, cb, ctx.senv(caller))}
+                    if not ("eq('%s', a1.pattern[a1.idx])" % ch in cg or any(x.startswith("a1.pattern[a1.idx]=") and ("'%s'" % ch) in x.replace("\\\\", "\\") for x in cg)):
+                        bad1.append(caller.path)
+                    if "lt(a1.idx, a1.len)" not in cg:
+                        bad2.append(caller.path)
+                out.append(ok("entry-check|" + b.path) if not bad1 else bad("entry-check|" + b.path, "callee %s checks pattern[idx]=='%s' (else Error::Internal) but caller(s) do not establish it: %s" % (b.path, ch, bad1[:2]), b.loc(bi)))
+                if b.path == "re_compiler::ReCompiler::bracket":
+                    out.append(ok("entry-check-len|" + b.path) if not bad2 else bad("entry-check-len|" + b.path, "bracket() may be entered with idx >= len", b.loc(bi)))
+                continue
         if ch is not None and any(re.match(r"^!eq\('%s', a1\.pattern\[a1\.idx\]\)$" % re.escape(ch).replace("\\\\", "\\\\\\\\"), g) or g == "!eq('%s', a1.pattern[a1.idx])" % ch for g in gs):
             # belief consistency with callers
             bad_callers = []
